@@ -221,6 +221,16 @@ def rule_PV(ctx, fm, P='C09.PV'):
                   'centres along, nodes across', ok, 'component grid vectors '
                   f'of {comp} are not (centres along its own axis, nodes '
                   'across)', ctx.where(fm, pv))
+    rebound = [n for n in ast.walk(pv) if isinstance(n, (ast.Assign,
+                                                         ast.AugAssign))
+               and any(isinstance(t, ast.Name) and t.id == cp for t in (
+                   n.targets if isinstance(n, ast.Assign) else [n.target]))]
+    ctx.check(f'{P}.components', '_point_vector uses the coordinates as '
+              'given', not rebound, f'`{au.stext(rebound[0]) if rebound else ""}`'
+              ' changes the source coordinates (rounded / shifted); '
+              'get_receiver samples at the coordinates as given, so the '
+              'point source is the transpose of the sampling at another '
+              'point', ctx.where(fm, rebound[0] if rebound else pv))
     sd = find(f'_s_ = electrodes.rotation(*{cp}[3:])', pv)
     ctx.check(f'{P}.components', '_point_vector direction cosines',
               len(sd) == 1, 'direction is not rotation(azimuth, elevation) '
@@ -231,7 +241,7 @@ def rule_PV(ctx, fm, P='C09.PV'):
                   f'rotation[{a}]', has(f'{vn}.{comp} *= {sdn}[{a}]', pv),
                   'component is not scaled by its direction cosine',
                   ctx.where(fm, pv))
-    ctx.floor(f'{P}.components', 7)
+    ctx.floor(f'{P}.components', 8)
     # lower indices are clamped to the first cell: a point between the first
     # node and the first cell centre would otherwise get index -1, which
     # wraps around to the last edge of the grid
@@ -522,6 +532,8 @@ def run(ctx):
         def check(self, rule, *a, **k):
             if rule == 'C07.AS.registry':
                 return self.c.check('C09.AS.registry', *a, **k)
+            if rule in ('C07.AS.source', 'C07.AS.nan'):
+                return self.c.check('C09.AS.source', *a, **k)
             return True
 
         def anchor(self, *a):
